@@ -120,6 +120,7 @@ void ThreePointsNumericalDerivative::updateDerivatives(const ParameterList& para
 
       if (hf3 == 0)
       {
+        function_->setParameters(parameters); // no probe was possible: undo the perturbation of the previous variable
         der1_[i] = log(-1);
         der2_[i] = log(-1);
       }
